@@ -1,5 +1,6 @@
 import AkVerif.Model.Sticky
 import AkVerif.Props.C11
+import AkVerif.Lemmas.StickyFix
 /-!
 # C15 — sticky assignor keeps assignments that need not move  (PARTIAL)
 
@@ -64,6 +65,22 @@ theorem userData_roundtrip (t : Ty) (_ht : userDataTy = some t) (v : Val) (bs : 
     (h : encode t v = some bs) : decode t bs = some (v, []) := by
   have := wire_roundtrip t v bs [] h
   simpa using this
+
+/-- **clause (a), partial**: for the Lean port of the sticky assignor (tied to the code by T-diff on
+    every explored round), a complete assignment that the code's own `_is_balanced` accepts — after
+    the consumers that cannot take part are set aside — is a fixpoint of `balance`: every consumer
+    keeps exactly its list.  What is missing for the full clause: that the result of a first round
+    always satisfies this hypothesis (it does on every explored input, the check counts it:
+    `fixpoint_hypothesis_held`), and the normal-form step from lists to the sorted output items. -/
+theorem c15_fixpoint_partial (fuel : Nat) (s : StickyAlg.St)
+    (hc2p : (StickyAlg.keysOf s.c2p).Nodup) (hne : s.cur ≠ [])
+    (hun : ∀ p ∈ s.unassigned, (StickyAlg.consumersOf s p).isEmpty = true)
+    (hf : s.failed = none)
+    (hb : StickyAlg.isBalanced (StickyAlg.setAsideFixed
+      (StickyAlg.assignUnassigned { s with subs := s.cur.map (·.1) })).1 = true) :
+    ∃ s', StickyAlg.balance (fuel + 1) s = some s' ∧ s'.failed = none ∧
+      ∀ x, StickyAlg.curOf s' x = StickyAlg.curOf s x :=
+  StickyAlg.balance_fixpoint fuel s hc2p hne hun hf hb
 
 example : survivorsKeepB [(0, [(0, [0, 1])]), (1, [(0, [2])])] [(0, [(0, [0, 1, 2])])] [0] = true := by
   decide
